@@ -78,6 +78,27 @@ def malformed_positions(ctx):
             ctx.violation("malformed text: " + bad, case={"text": text, "store": True}, observed=bad, stream="malformed-positions")
 
 
+REJECTED_FIRST = ["\n\n<zz a='1'>\n <yy>text<![x[ ]]>", "<zz><![weird[ ]]>", "\n<q>\n\n\n<r><s></s><![a[ ]]>"]
+
+
+def subclass_builder(form, setting, rejected=0):
+    """A user's subclass of the html.parser builder. form 'notrack': the class-level default TRACKS_LINE_NUMBERS is False - positions are
+    stored exactly when store_line_numbers=True is passed; form 'retry': prepare_markup first offers a text that html.parser rejects after
+    a few tags (ParserRejectedMarkup), then the document - the tree, and every position in it, is that of the text finally parsed.
+    setting: None (argument not given) | True | False. Returns (builder, positions stored?)."""
+    from bs4.builder import HTMLParserTreeBuilder
+    kw = {} if setting is None else {"store_line_numbers": setting}
+    if form == "notrack":
+        cls = type("NoTrack", (HTMLParserTreeBuilder,), {"TRACKS_LINE_NUMBERS": False})
+        return cls(multi_valued_attributes=None, **kw), bool(setting)
+
+    class Retry(HTMLParserTreeBuilder):
+        def prepare_markup(self, markup, *a, **k):
+            yield (REJECTED_FIRST[rejected], None, None, False)
+            yield from super().prepare_markup(markup, *a, **k)
+    return Retry(multi_valued_attributes=None, **kw), (True if setting is None else bool(setting))
+
+
 def linecol(text, off):
     return (text.count("\n", 0, off) + 1, off - (text.rfind("\n", 0, off) + 1))
 
@@ -111,6 +132,7 @@ def run(ctx: Ctx):
         store = r.random() < 0.75
         prev_text = None
         enc = None
+        sub = None
         if r.random() < 0.25 and not any(0xD800 <= ord(ch) <= 0xDFFF for ch in text):
             # bytes input in a declared encoding: the parsed text is the decoded document, character for character (characters the
             # encoding lacks are swapped, one for one, for characters it has - among them the Windows-1252 "smart quote" range)
@@ -146,6 +168,16 @@ def run(ctx: Ctx):
                     ctx.count("bytes:declared-encoding-not-used")
                     continue
                 ctx.count("bytes-input:" + enc)
+            elif r.random() < 0.15:
+                # a user's subclass of the builder: its own class-level default, or several candidate texts of which the first is rejected
+                from bs4 import BeautifulSoup
+                import warnings as _w
+                sub = (r.choice(["notrack", "retry"]), r.choice([None, True, False]), r.randrange(len(REJECTED_FIRST)))
+                b, store = subclass_builder(*sub)
+                with _w.catch_warnings():
+                    _w.simplefilter("ignore")
+                    soup = BeautifulSoup(text, builder=b)
+                ctx.count(f"builder-subclass:{sub[0]}:{sub[1]}")
             elif r.random() < 0.2:
                 # one builder INSTANCE parsing document after document (as unpickling or a long-lived application does):
                 # positions must not carry over from the previous document
@@ -192,7 +224,7 @@ def run(ctx: Ctx):
                  sample={"text": text, "positions": [(t.name, t.sourceline, t.sourcepos) for t in tags][:6]} if nontrivial and len(ctx.samples) < 4 else None)
         ctx.count("store:" + str(store))
         if len(tags) != len(offsets):
-            ctx.violation("number of tags differs from the number of start tags written", case={"text": text, "store": store},
+            ctx.violation("number of tags differs from the number of start tags written", case={"text": text, "store": store, "builder_subclass": sub},
                           expected=len(offsets), observed=len(tags), stream="written")
             continue
         for t, off in zip(tags, offsets):
@@ -200,7 +232,8 @@ def run(ctx: Ctx):
             got = (t.sourceline, t.sourcepos)
             if got != want:
                 ctx.violation(f"<{t.name}> written at offset {off}: sourceline/sourcepos {got}, true position {want}",
-                              case={"text": text, "store": store, "offset": off, "previous_document_same_builder": prev_text, "bytes_in": enc},
+                              case={"text": text, "store": store, "offset": off, "previous_document_same_builder": prev_text, "bytes_in": enc,
+                                    "builder_subclass": sub},
                               expected=want, observed=got, stream="written")
                 break
         if store and offsets:
@@ -259,7 +292,10 @@ def replay(path):
     c = v["case"]
     if "text" not in c:
         print(json.dumps(v, indent=1)[:2000]); return 1
-    if c.get("previous_document_same_builder") is not None:
+    if c.get("builder_subclass"):
+        from bs4 import BeautifulSoup
+        soup = BeautifulSoup(c["text"], builder=subclass_builder(*c["builder_subclass"])[0])
+    elif c.get("previous_document_same_builder") is not None:
         from bs4 import BeautifulSoup
         from bs4.builder import HTMLParserTreeBuilder
         b = HTMLParserTreeBuilder(multi_valued_attributes=None, **({} if c.get("store", True) else {"store_line_numbers": False}))
@@ -279,4 +315,6 @@ def replay(path):
         want = linecol(c["text"], c["offset"]) if c.get("store", True) else (None, None)
         ok = any((t.sourceline, t.sourcepos) == want for t in tags_in_order(soup))
         return 0 if ok else 1
+    if isinstance(v.get("expected"), int):          # "number of tags differs from the number of start tags written"
+        return 0 if len(tags_in_order(soup)) == v["expected"] else 1
     return 1
